@@ -71,7 +71,13 @@ pub async fn serve(
                         },
                     );
                 }
-                "unregister" | "unregistered" => {
+                "unregister" => {
+                    // A request to stop the handler: whatever was registered before it is
+                    // not active any more, whether or not the handler got to confirm it
+                    // with `.unregistered` before the server went down.
+                    topic_states.remove(&(frame.context_id, topic.to_string()));
+                }
+                "unregistered" => {
                     // Only remove if handler_id matches
                     if let Some(meta) = &frame.meta {
                         if let Some(handler_id) = meta.get("handler_id").and_then(|v| v.as_str()) {
